@@ -583,6 +583,8 @@ type RunSpec struct {
 	// Retry: when the first Execute fails, Execute is called once more on the SAME context with these generators (what a
 	// caller does that repairs the cause and tries again)
 	Retry       []*Script           `json:"retry,omitempty"`
+	// Then: further generator sets, each handed to Execute on the SAME context after the previous Execute succeeded
+	Then [][]*Script `json:"then,omitempty"`
 	Entrypoints []string            `json:"entrypoints"`
 	All         bool                `json:"all,omitempty"`
 	Force       bool                `json:"force,omitempty"`
@@ -604,6 +606,8 @@ type RunResult struct {
 	// Retried: a second Execute was made on the same context with RunSpec.Retry (after the first one failed)
 	Retried     bool   `json:"retried,omitempty"`
 	RetryFailed bool   `json:"retryfailed,omitempty"`
+	// ThenFrom: per RunSpec.Then set, the index into Calls of its first call
+	ThenFrom []int `json:"thenfrom,omitempty"`
 	// RetryFrom: index into Calls of the first call made by the second Execute
 	RetryFrom int `json:"retryfrom,omitempty"`
 	RetryErr    string `json:"retryerr,omitempty"`
@@ -723,6 +727,25 @@ func Run(rs RunSpec) (res RunResult) {
 			if err := c.Execute(context.Background(), again...); err != nil {
 				res.RetryFailed = true
 				res.RetryErr = err.Error()
+			}
+		}
+	}
+	if execErr == nil {
+		for _, set := range rs.Then {
+			var next []gengo.Generator
+			for _, s := range set {
+				g, err := Build(s)
+				if err != nil {
+					panic(err.Error())
+				}
+				current[s.Name] = s
+				next = append(next, g)
+			}
+			res.ThenFrom = append(res.ThenFrom, len(calls))
+			if err := c.Execute(context.Background(), next...); err != nil {
+				res.Failed = true
+				res.Err = err.Error()
+				break
 			}
 		}
 	}
